@@ -1,7 +1,9 @@
 //! Sequential ADT drivers (B3 behaviour replay) — DESIGN.md §7.3.
 mod c13;
 mod c14;
+mod c14e;
 mod c40;
+mod c40e;
 mod c42;
 
 fn main() {
@@ -9,7 +11,9 @@ fn main() {
     let cmd = a.get(1).map(|s| s.as_str()).unwrap_or("");
     match cmd {
         "c14" => c14::main(),
+        "c14e2e" => c14e::main(),
         "c40" => c40::main(),
+        "c40e2e" => c40e::main(),
         "c42" => c42::main(),
         "c13" => c13::main(),
         _ => {
